@@ -178,6 +178,11 @@ enum Op {
     Fail(usize),
     Panic(usize),
     Abort(usize),
+    /// `ActorCell::stop_children(None)` / `drain_children()` / the `_and_wait` variants (spawned task)
+    StopKids(usize),
+    DrainKids(usize),
+    StopKidsWait(usize),
+    DrainKidsWait(usize),
     /// arm the gate in the actor's `post_stop`
     Hold(usize),
     /// open it: `post_stop` returns and `cleanup` runs
@@ -200,6 +205,10 @@ impl Op {
             Op::Fail(a) => format!("fail {a}"),
             Op::Panic(a) => format!("panic {a}"),
             Op::Abort(a) => format!("abort {a}"),
+            Op::StopKids(a) => format!("stopkids {a}"),
+            Op::DrainKids(a) => format!("drainkids {a}"),
+            Op::StopKidsWait(a) => format!("stopkidswait {a}"),
+            Op::DrainKidsWait(a) => format!("drainkidswait {a}"),
             Op::Hold(a) => format!("hold {a}"),
             Op::PsRelease(a) => format!("psrelease {a}"),
         }
@@ -221,6 +230,10 @@ impl Op {
             "fail" => Op::Fail(n(1)?),
             "panic" => Op::Panic(n(1)?),
             "abort" => Op::Abort(n(1)?),
+            "stopkids" => Op::StopKids(n(1)?),
+            "drainkids" => Op::DrainKids(n(1)?),
+            "stopkidswait" => Op::StopKidsWait(n(1)?),
+            "drainkidswait" => Op::DrainKidsWait(n(1)?),
             "hold" => Op::Hold(n(1)?),
             "psrelease" => Op::PsRelease(n(1)?),
             _ => return None,
@@ -239,11 +252,46 @@ struct World {
     ids: HashMap<ActorId, usize>,
     /// thread-local actors live on this spawner's thread (created on first use)
     spawner: Option<ThreadLocalActorSpawner>,
+    /// `*_children_and_wait` tasks, in creation order
+    waiters: Vec<JoinHandle<()>>,
 }
 
 impl World {
+    /// terminal supervision events handed to a supervisor's port since the last call (`note_sup` hook)
+    fn events(&self) -> String {
+        let mut ev: Vec<String> = Vec::new();
+        for n in ractor::verif::take_notes() {
+            if let ractor::verif::Note::Sup(s) = n {
+                if s.kind != "Terminated" && s.kind != "Failed" {
+                    continue;
+                }
+                let ix = |id: &ActorId| self.ids.get(id).map(|x| x.to_string()).unwrap_or_else(|| "?".into());
+                let who = s.who.as_ref().map(ix).unwrap_or_else(|| "?".into());
+                let why = if s.kind == "Failed" {
+                    "failed".to_string()
+                } else {
+                    s.text.clone().unwrap_or_else(|| "none".into()).replace(' ', "_")
+                };
+                ev.push(format!("{who}>{}:{why}", ix(&s.to)));
+            }
+        }
+        ev.sort();
+        if ev.is_empty() {
+            "-".into()
+        } else {
+            ev.join(",")
+        }
+    }
+
+    fn waiter_states(&self) -> String {
+        if self.waiters.is_empty() {
+            return "-".into();
+        }
+        self.waiters.iter().map(|h| if h.is_finished() { "done" } else { "pending" }).collect::<Vec<_>>().join(",")
+    }
+
     fn snapshot(&self, r: &str) -> String {
-        let mut s = format!("r={r} |");
+        let mut s = format!("r={r} w={} |", self.waiter_states());
         for (i, n) in self.nodes.iter().enumerate() {
             let sup = n
                 .cell
@@ -285,6 +333,9 @@ impl World {
             }
             Op::Abort(a) => ok(a) && self.nodes[*a].handle.is_some(),
             Op::Block(a) | Op::Drain(a) | Op::Stop(a) | Op::Kill(a) | Op::Hold(a) => ok(a),
+            // (if the actor is beneath one of its own children, which child exits first — and takes the
+            // others with it — is the HashMap's iteration order: not compared)
+            Op::StopKids(a) | Op::DrainKids(a) | Op::StopKidsWait(a) | Op::DrainKidsWait(a) => ok(a) && !self.in_cycle(*a),
             Op::PsRelease(a) => ok(a) && self.nodes[*a].sh.in_ps.load(Ordering::SeqCst),
         }
     }
@@ -365,6 +416,24 @@ impl World {
                 }
                 "unit".into()
             }
+            Op::StopKids(a) => {
+                self.nodes[*a].cell.stop_children(None);
+                "unit".into()
+            }
+            Op::DrainKids(a) => {
+                self.nodes[*a].cell.drain_children();
+                "unit".into()
+            }
+            Op::StopKidsWait(a) => {
+                let c = self.nodes[*a].cell.clone();
+                self.waiters.push(tokio::spawn(async move { c.stop_children_and_wait(None, None).await }));
+                "unit".into()
+            }
+            Op::DrainKidsWait(a) => {
+                let c = self.nodes[*a].cell.clone();
+                self.waiters.push(tokio::spawn(async move { c.drain_children_and_wait(None).await }));
+                "unit".into()
+            }
             Op::Hold(a) => {
                 self.nodes[*a].sh.hold.store(true, Ordering::SeqCst);
                 "unit".into()
@@ -397,7 +466,23 @@ impl World {
                 }
             }
         }
-        self.snapshot(&r)
+        // events last: everything the op caused has happened by now
+        let snap = self.snapshot(&r);
+        let ev = self.events();
+        snap.replacen(" w=", &format!(" ev={ev} w="), 1)
+    }
+
+    /// is the actor (transitively) its own supervisor
+    fn in_cycle(&self, a: usize) -> bool {
+        let mut x = a;
+        for _ in 0..32 {
+            match self.nodes[x].cell.try_get_supervisor().and_then(|s| self.ids.get(&s.get_id()).copied()) {
+                Some(p) if p == a => return true,
+                Some(p) => x = p,
+                None => return false,
+            }
+        }
+        false
     }
 
     fn depth(&self, mut a: usize) -> usize {
@@ -473,11 +558,20 @@ impl World {
                 Op::Link(c, p)
             } else if r < 54 {
                 Op::Unlink(any(rng), any(rng))
-            } else if r < 65 {
+            } else if r < 63 {
                 Op::Block(pick_live(rng))
-            } else if r < 69 {
-                // arm the post_stop gate of a supervisor, and (half of the time) stop it right away
+            } else if r < 65 {
+                // arm the post_stop gate of a supervisor
                 Op::Hold(pick_parent(rng))
+            } else if r < 69 {
+                // the supervisor-side wrappers, on an actor that has children (some with a backlog)
+                let p = pick_parent(rng);
+                match rng.below(4) {
+                    0 => Op::StopKids(p),
+                    1 => Op::DrainKids(p),
+                    2 => Op::StopKidsWait(p),
+                    _ => Op::DrainKidsWait(p),
+                }
             } else if r < 77 {
                 if busy.is_empty() { Op::Release(any(rng)) } else { Op::Release(*rng.pick(&busy)) }
             } else if r < 85 {
@@ -510,7 +604,8 @@ enum Script {
 }
 
 async fn run_case(script: Script) -> Vec<(String, String)> {
-    let mut w = World { nodes: Vec::new(), ids: HashMap::new(), spawner: None };
+    let _ = ractor::verif::take_notes();
+    let mut w = World { nodes: Vec::new(), ids: HashMap::new(), spawner: None, waiters: Vec::new() };
     let mut out = Vec::new();
     match script {
         Script::Fixed(ops) => {
@@ -538,6 +633,9 @@ async fn run_case(script: Script) -> Vec<(String, String)> {
         n.sh.gate.add_permits(1000);
         n.sh.ps_gate.add_permits(1000);
         n.cell.kill();
+    }
+    for h in &w.waiters {
+        h.abort();
     }
     quiesce().await;
     if w.spawner.is_some() {
@@ -572,6 +670,14 @@ fn fixed_cases() -> Vec<Vec<Op>> {
         // a child draining a backlog while its supervisor goes away (finding F1 on the pinned code)
         vec![Spawn, SpawnL(0), Block(1), Block(1), Drain(1), Kill(0), Release(1), Release(1)],
         vec![Spawn, SpawnL(0), SpawnL(1), Block(1), Drain(1), Stop(0), Release(1)],
+        // the supervisor-side wrappers: children idle, busy with a backlog, one already asked to stop
+        vec![Spawn, SpawnL(0), SpawnL(0), Block(1), Block(1), Block(1), DrainKidsWait(0), Release(1), Release(1), Release(1)],
+        vec![Spawn, SpawnL(0), SpawnL(0), Block(1), Block(1), Block(1), DrainKids(0), Release(1), Release(1), Release(1)],
+        vec![Spawn, SpawnL(0), SpawnL(0), Block(1), Block(1), Block(1), StopKidsWait(0), Release(1)],
+        vec![Spawn, SpawnL(0), SpawnL(0), SpawnL(1), Block(2), Block(2), StopKids(0), Release(2)],
+        vec![Spawn, SpawnL(0), Block(1), Stop(1), StopKidsWait(0), DrainKidsWait(0), Release(1)],
+        vec![Spawn, SpawnL(0), SpawnL(0), Hold(1), Block(2), DrainKidsWait(0), StopKidsWait(0), Release(2), PsRelease(1)],
+        vec![Spawn, SpawnL(0), Kill(0), DrainKidsWait(0), StopKidsWait(0), DrainKids(0), StopKids(0)],
         // a supervisor parked in post_stop (Stopping, children not yet taken)
         vec![Spawn, Spawn, SpawnL(0), Hold(0), Stop(0), Link(2, 1), PsRelease(0)],
         vec![Spawn, Spawn, SpawnL(0), SpawnL(2), Hold(0), Drain(0), Link(2, 1), Link(2, 0), SpawnL(0), PsRelease(0)],
